@@ -657,6 +657,14 @@ impl Driver {
             }
         }
         self.status("storm-served", Some(served as u16));
+        // late arrivals: they knock while the cap is reached (accepting is switched off)
+        for k in 0..(n / 6).max(2) {
+            if let Some(i) = self.open(Kind::H1, if k % 2 == 0 { 1 } else { 2 }) {
+                self.send(i, b"GET /c2/ok HTTP/1.1\r\nHost: localhost\r\n\r\n");
+                idx.push(i);
+            }
+        }
+        std::thread::sleep(Duration::from_millis(50));
         // free a few slots, then the survivors of the queue / new sockets must get through
         for &i in idx.iter().take(n / 2) {
             self.close(i);
@@ -688,12 +696,29 @@ impl Driver {
                 3 => {
                     // HTTP/1.1 over TLS
                     if self.tls_handshake(i, &[b"http/1.1"]).is_ok() {
+                        let ws = self.rng.random_bool(0.5);
+                        let quit = self.rng.random_bool(0.5);
+                        let mut st = None;
                         if let Some(t) = self.clients[i].tls.as_mut() {
-                            t.send_raw(b"GET /c1/ok HTTP/1.1\r\nHost: localhost\r\n\r\n");
+                            if ws {
+                                t.send_raw(b"GET /c1/ws HTTP/1.1\r\nHost: localhost\r\nConnection: Upgrade\r\nUpgrade: websocket\r\n\r\n");
+                            } else {
+                                t.send_raw(b"GET /c1/ok HTTP/1.1\r\nHost: localhost\r\n\r\n");
+                            }
                             let mut tmp = [0u8; 2048];
                             t.s.sock.set_read_timeout(Some(T)).ok();
-                            let st = t.s.read(&mut tmp).ok().filter(|n| *n > 12).and_then(|_| String::from_utf8_lossy(&tmp[9..12]).parse::<u16>().ok());
-                            self.status("tls-h1", st);
+                            st = t.s.read(&mut tmp).ok().filter(|n| *n > 12).and_then(|_| String::from_utf8_lossy(&tmp[9..12]).parse::<u16>().ok());
+                            if ws && st == Some(101) {
+                                // websocket over TLS: either side ends it
+                                t.send_raw(if quit { b"byeQ" } else { b"ping" });
+                                if !quit {
+                                    let _ = t.s.read(&mut tmp);
+                                }
+                            }
+                        }
+                        self.status(if ws { "tls-ws" } else { "tls-h1" }, st);
+                        if ws && quit && st == Some(101) {
+                            self.clients[i].note = "await-timeout".into();
                         }
                     }
                 }
@@ -808,6 +833,21 @@ impl Driver {
     fn wave_perip(&mut self) {
         let l = self.rng.random_range(1..3u64);
         self.set_limit(l);
+        // first a block from one address to one cluster, all kept open: more than the limit allows
+        let c = if self.rng.random_bool(0.5) { "c1" } else { "c2" };
+        for _ in 0..(l as usize + 2) {
+            if let Some(i) = self.open(Kind::H1, 1) {
+                self.send(i, format!("GET /{c}/ok HTTP/1.1\r\nHost: localhost\r\n\r\n").as_bytes());
+                let st = self.read_h1(i, T);
+                self.status("perip-block", st);
+            }
+        }
+        for _ in 0..2 {
+            if let Some(i) = self.open(Kind::Tcp, 1) {
+                self.send(i, b"echo");
+                let _ = self.await_byte(i, Duration::from_millis(500));
+            }
+        }
         let n = self.rng.random_range(4..8usize);
         for k in 0..n {
             let ip = if self.rng.random_bool(0.7) { 1 } else { 2 };
@@ -965,6 +1005,8 @@ fn main() {
     let waves: usize = arg("--waves", "8").parse().unwrap_or(8);
     let max: usize = arg("--max", "8").parse().unwrap_or(8);
     let out = arg("--out", "/tmp/c16_trace.ndjson");
+    // with an interval below the session timeouts idle sessions are reaped by the zombie sweep instead
+    let zombie: u32 = arg("--zombie", &ZOMBIE_INTERVAL.to_string()).parse().unwrap_or(ZOMBIE_INTERVAL);
     let mut rng = StdRng::seed_from_u64(seed);
     let evict = rng.random_bool(0.5);
 
@@ -978,7 +1020,7 @@ fn main() {
         fc.max_connections = Some(max);
         fc.min_buffers = Some(4);
         fc.max_buffers = Some(64);
-        fc.zombie_check_interval = Some(ZOMBIE_INTERVAL);
+        fc.zombie_check_interval = Some(zombie);
         fc.accept_queue_timeout = Some(QUEUE_TIMEOUT_S);
         fc.evict_on_queue_full = Some(evict);
     });
@@ -1064,7 +1106,7 @@ fn main() {
     while d.rx.try_recv().is_ok() {}
     d.trace.push(json!({"ev": "cfg", "max": max, "evict": evict, "queue_timeout_ms": QUEUE_TIMEOUT_S * 1000,
         "overrides": {"c2": 2}, "seed": seed,
-        "timeouts": {"front": FRONT_TIMEOUT, "back": BACK_TIMEOUT, "connect": CONNECT_TIMEOUT, "request": REQUEST_TIMEOUT, "zombie": ZOMBIE_INTERVAL}}));
+        "timeouts": {"front": FRONT_TIMEOUT, "back": BACK_TIMEOUT, "connect": CONNECT_TIMEOUT, "request": REQUEST_TIMEOUT, "zombie": zombie}}));
     // wake the loop so that a fresh loop_idle is seen, then take the baseline
     let _ = d.gauges();
     d.quiesce(0, "baseline");
